@@ -35,8 +35,28 @@ pub struct Program {
     pub entry: String,
 }
 
+/// The escape function of the second pair of instances: `<` and `&` rewritten to something the
+/// default escaper never produces.
+fn custom_escape(input: &str, out: &mut dyn std::io::Write) -> std::io::Result<()> {
+    for c in input.chars() {
+        match c {
+            '<' => out.write_all(b"[lt]")?,
+            '&' => out.write_all(b"[amp]")?,
+            c => out.write_all(c.encode_utf8(&mut [0u8; 4]).as_bytes())?,
+        }
+    }
+    Ok(())
+}
+
 fn instance(p: &Program, optimise: bool) -> Result<Tera, Out> {
+    instance_with(p, optimise, false)
+}
+
+fn instance_with(p: &Program, optimise: bool, custom_escaper: bool) -> Result<Tera, Out> {
     let mut t = Tera::default();
+    if custom_escaper {
+        t.set_escape_fn(custom_escape);
+    }
     let r = tera::verif::with_optimizer(optimise, || engine::add_templates(&mut t, &p.templates));
     match r {
         Out::Ok(_) => Ok(t),
@@ -137,6 +157,31 @@ fn judge(p: &Program, contexts: &[(String, Context)], acc: &mut Acc, family: &st
         // non-trivial: the program contains at least one merged group or a jump (the pass had
         // something to do or something to preserve)
         acc.case(fused_groups > 0 && jumps > 0, a.class());
+    }
+    // The same differential on instances with a user-supplied escape function, for programs that
+    // have an autoescaped template: the fused and the unfused write both have to go through the
+    // instance's function, at top level and inside captures (seeded change C09-12 let the unfused
+    // write call the default escaper directly when it wrote into a capture).
+    if p.templates.iter().any(|(n, _)| n.ends_with(".html")) {
+        if let (Ok(off), Ok(on)) = (instance_with(p, false, true), instance_with(p, true, true)) {
+            for (cname, ctx) in contexts {
+                let a = engine::render(&off, &p.entry, ctx);
+                let b = engine::render(&on, &p.entry, ctx);
+                let same = match (&a, &b) {
+                    (Out::Ok(x), Out::Ok(y)) => x == y,
+                    (Out::Err(..), Out::Err(..)) => true,
+                    _ => false,
+                };
+                if !same {
+                    acc.violation(
+                        "fusion-differential:custom-escaper",
+                        format!("context {cname}, escape function rewriting `<` to [lt] and `&` to [amp]: pass off {} / pass on {}", a.show(), b.show()),
+                        || json!({"family": family, "templates": p.templates, "entry": p.entry, "context": cname, "escape_fn": "< -> [lt], & -> [amp], everything else unchanged"}),
+                    );
+                }
+                acc.case(fused_groups > 0, if a.is_ok() { "custom-escaper:ok" } else { "custom-escaper:err" });
+            }
+        }
     }
     acc.sample(|| json!({"family": family, "templates": p.templates, "fused_groups": fused_groups, "jumps": jumps}));
 }
